@@ -65,7 +65,7 @@ func cmdVerify(args []string) {
 			results = append(results, eng.verifyLemma(strings.TrimPrefix(k, "lemma:")))
 			continue
 		}
-		if !strings.Contains(k, "/") {
+		if !strings.HasPrefix(k, modulePrefix) {
 			k = modulePrefix + "/" + k
 		}
 		results = append(results, eng.verifyFunction(k, nil))
